@@ -659,7 +659,7 @@ fn main() {
     corpus(&mut s, &mut r);
 
     let th = args.thorough();
-    let n = if th { 700 } else { 40 };
+    let n = if th { 420 } else { 40 };
     let maxdim = if th { 12 } else { 8 };
     macro_rules! ring { ($t:ty, $mult:expr, $div:expr) => {
         for i in 0..(n * $mult / $div) {
